@@ -570,8 +570,8 @@ fn report_mismatches(
 fn case_fn(quick: bool) -> impl Fn(u64, &mut Rng, &mut Report) + Sync {
     move |case: u64, rng: &mut Rng, rep: &mut Report| {
         let sch = build_schema();
-        // quick: every 12th case is a corpus just beyond a multiple of the flush threshold
-        let corpus = gen_corpus(rng, !quick || case % 6 == 5, quick && case % 12 == 7);
+        // quick: every 10th case is a corpus just beyond a multiple of the flush threshold
+        let corpus = gen_corpus(rng, !quick || case % 6 == 5, quick && case % 10 == 7);
         let n = corpus.docs.len();
         let all: Vec<usize> = (0..n).collect();
         // partitions
@@ -895,11 +895,11 @@ fn main() {
          segment cut-off (explicit segment_size or the default 10 x size below the number of distinct terms) or \
          without; a value bucket (terms / histogram / composite / filter) with extended_stats, stats, avg or sum \
          of the same single-valued field (constant and nearly constant buckets; fields holding a run of >= 30 \
-         equal values with a long f64 mantissa - ns timestamps, integers beyond 2^53, non-dyadic fractions - are \
+         equal values with a long f64 mantissa - ns timestamps, non-dyadic fractions - are \
          preferred and such corpora get four times as many of these requests), or of a field that no document has \
          with a random long-mantissa `missing` value (every document contributes the same value); \
          a range with buckets no document falls into x one sub aggregation of a uniformly chosen kind; any bucket \
-         aggregation x one sub aggregation of a uniformly chosen kind. In quick every 12th corpus (thorough: one in \
+         aggregation x one sub aggregation of a uniformly chosen kind. In quick every 10th corpus (thorough: one in \
          27) has 2048 k + 1..48 documents, so that one-segment partitions feed their sub aggregations by a full \
          flush followed by a short one; there half of the requests are of the last shape. evaluations = (corpus, request, partition) triples, each \
          compared with a naive evaluator over the model documents. non-trivial = the result has >= 2 buckets or >= 2 \
